@@ -52,6 +52,8 @@ func runC12(e *Env) {
 	e.S.Floor("C12.count", 1)
 	ruleC12Gate(e)
 	ruleC12Keys(e)
+	ruleC12AllMembers(e, "C12.all")
+	e.S.Floor("C12.all", 1)
 	e.S.Floor("C12.gate", 10)
 	e.S.Floor("C12.keys", 12)
 	ruleWrap(e, "C12.wrap", "size")
@@ -542,7 +544,12 @@ func ruleC12Arms(e *Env) {
 			e.S.Bad(rule, site, "unknown-key arm", "the unknown-key arm is not gated by exactly RuleDisallowUnknownKeys with ErrUnexpectedKey on the set edge", e.posOf(call), "")
 		}
 	}
-	// depth counter of the skipper
+	ruleSkipper(e, rule, skip)
+}
+
+// ruleSkipper: the nesting counter of decodeAndSkipNested (also the justification of C18.T1's listed exception:
+// the key token is a string only if every member value has been consumed completely).
+func ruleSkipper(e *Env, rule string, skip *ssa.Function) {
 	if skip != nil {
 		ssite := flow.FnName(skip)
 		var depth *ssa.Phi
@@ -591,6 +598,78 @@ func ruleC12Arms(e *Env) {
 	}
 }
 
+// ruleC12AllMembers: the key loop may leave towards the success continuation only on the edge where the decoder
+// reports that no member is left (`!d.More()`): leaving earlier skips the duplicate tests, the unknown-key rule
+// and the member count for everything that follows, so the verdict would depend on member order.
+func ruleC12AllMembers(e *Env, rule string) {
+	rd := e.Fn(rule, "size", "unmarshalJSONObject")
+	if rd == nil {
+		return
+	}
+	site := flow.FnName(rd)
+	// loop head: the block with the 0,+1 counter phi, or any block on a cycle that calls More()
+	inCycle := func(b *ssa.BasicBlock) bool {
+		seen := map[*ssa.BasicBlock]bool{}
+		stack := append([]*ssa.BasicBlock{}, b.Succs...)
+		for len(stack) > 0 {
+			x := stack[len(stack)-1]
+			stack = stack[:len(stack)-1]
+			if x == b {
+				return true
+			}
+			if seen[x] {
+				continue
+			}
+			seen[x] = true
+			stack = append(stack, x.Succs...)
+		}
+		return false
+	}
+	n, bad := 0, 0
+	for _, b := range rd.Blocks {
+		if !inCycle(b) {
+			continue
+		}
+		for si, s := range b.Succs {
+			if inCycle(s) || onlyDefiniteErrors(s) {
+				continue
+			}
+			// constant-condition edges (for …; true; …) are infeasible
+			if iff, ok := b.Instrs[len(b.Instrs)-1].(*ssa.If); ok {
+				if _, isConst := iff.Cond.(*ssa.Const); isConst {
+					continue
+				}
+			}
+			n++
+			okExit := false
+			if iff, ok := b.Instrs[len(b.Instrs)-1].(*ssa.If); ok {
+				cond := iff.Cond
+				neg := false
+				if u, ok := cond.(*ssa.UnOp); ok && u.Op == token.NOT {
+					cond, neg = u.X, true
+				}
+				if call, ok := cond.(*ssa.Call); ok && (call.Call.IsInvoke() && call.Call.Method.Name() == "More" || call.Call.StaticCallee() != nil && call.Call.StaticCallee().String() == "(*encoding/json.Decoder).More") {
+					// exit must be the edge on which More() is false
+					moreFalseEdge := 1
+					if neg {
+						moreFalseEdge = 0
+					}
+					okExit = si == moreFalseEdge
+				}
+			}
+			if okExit {
+				e.S.Ok(rule, site, "loop exit", "the member loop is left for the success path only when More() reports no further member", e.posOfBlock(b))
+			} else {
+				bad++
+				e.S.Bad(rule, site, "early loop exit", "the member loop can be left for the success path while members remain: duplicates, unknown keys and the member count after that point are not examined, so the verdict depends on member order", e.posOfBlock(b), `{"value":1,"unit":"B","value":2}`)
+			}
+		}
+	}
+	if n == 0 {
+		e.S.Unk(rule, site, "loop exit", "no exit of the member loop towards the success path found", e.Pos(rd))
+	}
+}
+
 // phiChain: v is ph or a phi/merge fed (transitively) by ph.
 func phiChain(v ssa.Value, ph *ssa.Phi) bool {
 	seen := map[ssa.Value]bool{}
@@ -613,4 +692,27 @@ func phiChain(v ssa.Value, ph *ssa.Phi) bool {
 		return false
 	}
 	return rec(v, 0)
+}
+
+// onlyDefiniteErrors: every return reachable from b certainly carries a non-nil error (a pass-through of a
+// callee's error result, which may be nil, does not count).
+func onlyDefiniteErrors(b *ssa.BasicBlock) bool {
+	seen := map[*ssa.BasicBlock]bool{}
+	var rec func(x *ssa.BasicBlock) bool
+	rec = func(x *ssa.BasicBlock) bool {
+		if seen[x] {
+			return true
+		}
+		seen[x] = true
+		if _, ok := x.Instrs[len(x.Instrs)-1].(*ssa.Return); ok {
+			return flow.IsErrorReturnBlock(x)
+		}
+		for _, s := range x.Succs {
+			if !rec(s) {
+				return false
+			}
+		}
+		return true
+	}
+	return rec(b)
 }
